@@ -307,7 +307,7 @@ def _judge_field(chk: Check, owner: Unit, label: str, c: ast.Call, tt: Optional[
         # a temporary that holds an expression (field + rk1*dt) is not a plain field value
         d = du.unique_value(du.node_of(c), c.args[2].id)
         if d is not None and d.value is not None and not d.sel \
-                and not isinstance(d.value, (ast.Name, ast.Attribute)):
+                and isinstance(d.value, (ast.BinOp, ast.Call, ast.UnaryOp)):
             return
     ok = tt == ft
     chk.add("F1", owner, f"{label}: field argument {norm(c.args[2])} of field_eom({norm(c.args[0])}, ..)",
@@ -586,6 +586,29 @@ def f3(prog: Program, chk: Check) -> None:
             "" if writers <= allowed else f"unexpected writers {sorted(writers - allowed)}")
 
 
+# --------------------------------------------------------------------- F5
+def f5(prog: Program, chk: Check) -> None:
+    chk.rule("F5", "each system of a mean-field computation gets the influence functions of its "
+             "own bath: no memo in MeanFieldTempo (incl. the closures it builds) identifies a "
+             "bath by less than what the stored value depends on (a name is not an identity)",
+             floor=1)
+    from rules.c20 import memo_findings
+    ci = prog.cls("tempo:MeanFieldTempo")
+    units = []
+    for mu in ci.methods.values():
+        units += [mu] + [v for v in prog.all_nested(mu) if not isinstance(v.node, ast.Lambda)]
+    n = 0
+    for (u, node, construct, missing) in memo_findings(prog, units):
+        n += 1
+        chk.saw(u)
+        chk.add("F5", u, construct, not missing,
+                "identified by everything it depends on" if not missing else
+                f"the stored value depends on {missing}, the key does not: a second system whose "
+                f"bath agrees in the key is given the first bath's influence functions", node)
+    chk.add("F5", prog.module("tempo"), f"{len(units)} functions of MeanFieldTempo scanned, {n} "
+            f"memo idiom(s)", len(units) >= 10, "" if len(units) >= 10 else "the class shrank")
+
+
 def run(prog: Program, chk: Check) -> None:
     chk.explanation = (
         "Decides the time/state alignment of the two Runge-Kutta stages at every field_eom call "
@@ -603,3 +626,4 @@ def run(prog: Program, chk: Check) -> None:
     chk.call(f2, prog, chk)
     chk.call(f3, prog, chk)
     chk.call(f4, prog, chk)
+    chk.call(f5, prog, chk)
